@@ -25,7 +25,9 @@ EXPLANATION = (
     'R-C17.5 the evolutions announced for an evolution batch derive from the '
     'same batch entry as the SQL that is executed for it; '
     'R-C17.5 also rejects labels aggregated over several batch entries (comprehension-bound task_info); '
-    'R-C17.6 nothing state-changing is reachable from evolve() before evolving.send(); R-C17.7 a generator-produced value is iterated at most once in run_sql unless materialised.')
+    'R-C17.6 nothing state-changing is reachable from evolve() before evolving.send(); R-C17.7 a generator-produced value is iterated at most once in run_sql unless materialised.'
+    ' '
+    'R-C17.8 (= R-C07.9) no finally block is left through return/break/continue.')
 NOT_DECIDED = (
     'That the payload (evolutions, migrations, model names) equals exactly '
     'what was executed between the paired signals for every run.')
@@ -671,7 +673,13 @@ def r7_statement_generator_iterated_once(ctx, rule_id='R-C17.7'):
               n_gen_loops, 1)
 
 
+def r8_finally_does_not_swallow(ctx):
+    from .c07 import r9_finally_does_not_swallow
+    r9_finally_does_not_swallow(ctx, rule_id='R-C17.8')
+
+
 def run(ctx):
+    r8_finally_does_not_swallow(ctx)
     r7_statement_generator_iterated_once(ctx)
     r6_nothing_changes_before_evolving(ctx)
     r5_payload_provenance(ctx)
